@@ -66,7 +66,7 @@ func (f *Filter) IsAllowed(res Resource) bool {
 	)
 
 	if _, ok := res.Attrs()[f.Field]; ok {
-		val = res.Get(f.Field)
+		val = getAttrVal(res, f.Field)
 	}
 
 	if rel, ok := res.Rels()[f.Field]; ok {
@@ -103,6 +103,23 @@ func (f *Filter) IsAllowed(res Resource) bool {
 	default:
 		return checkVal(f.Op, val, f.Val)
 	}
+}
+
+// getAttrVal returns the value of the attribute of res named after key.
+//
+// Some implementations of Resource (like Wrapper) return an untyped nil for a
+// nil nullable attribute where others (like SoftResource) return a typed nil
+// pointer. The typed form is returned in both cases so that filtering and
+// sorting do not depend on the implementation.
+func getAttrVal(res Resource, key string) any {
+	v := res.Get(key)
+	if v == nil {
+		if attr, ok := res.Attrs()[key]; ok && attr.Nullable {
+			return GetZeroValue(attr.Type, true)
+		}
+	}
+
+	return v
 }
 
 func checkVal(op string, rval, cval any) bool {
